@@ -49,14 +49,35 @@ def variant(repo):
         ("row scale moved on swap", "row_scale[best_index] = row_scale[j];"),
         ("determinant negated on swap", "d *= -1.0;"),
         ("determinant accumulates pivot", "d *= A(j, j);"),
-        ("L terms divided by pivot", "if (j != n - 1) { double complex scale = 1.0 / A(j, j); for (int i = j + 1; i < n; ++i) A(i, j) *= scale; }"),
         ("U loop", "for (int i = 0; i < j; ++i) { double complex s = 0.0; s = A(i, j); for (int k = 0; k < i; ++k) { s -= A(i, k) * A(k, j); } A(i, j) = s; }"),
         ("L loop", "for (int i = j; i < n; ++i) { double complex s = A(i, j); double temp; for (int k = 0; k < j; ++k) { s -= A(i, k) * A(k, j); } A(i, j) = s;"),
     ]
     for what, pat in needed:
         if _norm(pat) not in flat:
             raise TranslateError("vnacommon_lu.c: statement no longer matches the modelled idiom: %s" % what)
+    l_scaling(repo)
     return v
+
+
+# the two accepted ways of dividing the L terms by the pivot.  In exact arithmetic they are the same function
+# (the model computes s * (1 / p) = s / p); in binary64 they differ: fl(p * fl(1/p)) is not 1 for about 15 % of the
+# doubles p, so with the rounded reciprocal a bit-identical (duplicated) row does not eliminate to an exact zero
+# (finding DL90), whereas p / p = 1 exactly for every finite nonzero real p (not for every complex p: the
+# imaginary part of z / z computed by __divdc3 is d - c * fl(d / c) over the denominator).
+L_SCALING = {
+    "reciprocal": "if (j != n - 1) { double complex scale = 1.0 / A(j, j); for (int i = j + 1; i < n; ++i) A(i, j) *= scale; }",
+    "divide": "if (j != n - 1) { for (int i = j + 1; i < n; ++i) A(i, j) /= A(j, j); }",
+}
+
+
+def l_scaling(repo):
+    """-> "reciprocal" (A(i,j) *= 1.0 / A(j,j)) or "divide" (A(i,j) /= A(j,j)); anything else raises."""
+    path = os.path.join(repo, "src", "vnacommon_lu.c")
+    flat = _norm(_strip_comments(open(path).read()))
+    found = [k for k, pat in L_SCALING.items() if _norm(pat) in flat]
+    if len(found) != 1:
+        raise TranslateError("vnacommon_lu.c: statement no longer matches the modelled idiom: L terms divided by pivot")
+    return found[0]
 
 
 CALLS = ["_vnacommon_mldivide", "_vnacommon_mrdivide", "_vnacommon_minverse", "_vnacommon_qrsolve",
